@@ -133,7 +133,8 @@ def check_signature(ctx, params, ret, rnd):
     for i, (n, kws) in enumerate(sp.shapes):
         if (skip >> i) & 1:
             continue
-        args = tuple(('p', j) for j in range(n))
+        # (values are pairwise distinguishable; one positional value is None, one is another falsy value)
+        args = tuple(None if j == i % 2 else (0 if j == 2 else ('p', j)) for j in range(n))
         kwargs = {k: ('k', k) for k in sorted(kws)}
         callsigs.append((args, kwargs))
         ctx.count('C20.calls_compared')
